@@ -454,7 +454,7 @@ pub fn run(args: &[String]) {
             k1.sort();
             k2.sort();
             if o.stmts != oi.stmts {
-                oracle = "FAIL C18: the graph differs from the graph of the program with the included text written in place".into();
+                oracle = "FAIL C18,C06: the graph differs from the graph of the program with the included text written in place".into();
             } else if o.symbols != oi.symbols {
                 oracle = "FAIL C18: the symbols differ from those of the program with the included text written in place".into();
             } else if k1 != k2 {
